@@ -76,7 +76,7 @@ type Zip struct {
 // Call the function with the arguments provided.
 func (f *Zip) Call(s *slip.Scope, args slip.List, depth int) slip.Object {
 	slip.CheckArgCount(s, depth, f, args, 1, 12)
-	data := []byte(slip.CoerceToOctets(args[0]).(slip.Octets))
+	data := []byte(slip.OctetsOf(args[0]))
 	level := gzip.DefaultCompression
 	args = args[1:]
 	if 0 < len(args) {
@@ -114,7 +114,7 @@ func setZipHeader(s *slip.Scope, z *gzip.Writer, args slip.List, depth int) {
 			z.Comment = slip.MustBeString(val, ":comment")
 		}
 		if val, has := slip.GetArgsKeyValue(args, slip.Symbol(":extra")); has {
-			z.Extra = []byte(slip.CoerceToOctets(val).(slip.Octets))
+			z.Extra = []byte(slip.OctetsOf(val))
 		}
 		if val, has := slip.GetArgsKeyValue(args, slip.Symbol(":mod-time")); has {
 			if st, ok := val.(slip.Time); ok {
